@@ -55,7 +55,9 @@ def _defs_of(st: ast.AST):
 
 
 def controlling_tests(cfg: CFG, nid: int) -> List[Node]:
-    return [cfg.nodes[d] for d in cfg.dominators(nid) if cfg.nodes[d].kind == "test"]
+    """Tests that CONTROL the node: they dominate it and it is reachable through one of their branches only (a test whose
+    two branches re-join before the node dominates it without deciding whether it runs)."""
+    return [cfg.nodes[d] for d in cfg.dominators(nid) if cfg.nodes[d].kind == "test" and cfg.branch_taken(d, nid) is not None]
 
 
 def _cmp_parts(e: ast.AST) -> Optional[Tuple[ast.AST, ast.AST, Optional[ast.AST], str]]:
@@ -366,8 +368,22 @@ def run(idx: ProgramIndex, rep: Report, tier: str, selftest: bool = True):
                 labels.append(t.label[:50])
         return names, labels
 
+    has_tridiag = "n_tridiag" in cg0.params()
     for b in breaks:
         names, labels = loop_controls(b.id)
+        if has_tridiag and "tolerance" in names and "n_tridiag" not in names:
+            # flags computed earlier in the iteration (keep_going = n_tridiag and k < ...) count through their definitions
+            try:
+                rd_x = ReachingDefs(cg, reads=value_reads)
+                names = names | rd_x.closure(b.id, names)
+            except Exception:
+                pass
+            if "n_tridiag" not in names:
+                rep.bad("C08.X", Finding(PROP, "C08.X", F, "break ignores n_tridiag",
+                                         "the early exit on reaching the tolerance does not depend on n_tridiag: when Lanczos coefficients "
+                                         "are requested the iteration stops before max_tridiag_iter steps and the tridiagonal matrices are "
+                                         "smaller than requested (log-determinant quadrature loses accuracy)", cg0.loc(b.ast)))
+                continue
         if "tolerance" in names and R.residual_norm in names:
             rep.ok("C08.X", {"break_controlled_by": labels})
         else:
@@ -389,6 +405,28 @@ def run(idx: ProgramIndex, rep: Report, tier: str, selftest: bool = True):
                                          f"`{R.reached}` is set outside the tolerance test: the NumericalWarning is suppressed "
                                          "although the tolerance was not reached", cg0.loc(s_.ast)))
 
+    def alternatives(e: ast.AST, pol: bool, depth: int = 0) -> List[List[Tuple[ast.AST, bool]]]:
+        """The condition `e == pol` as a disjunction of conjunctions of literals (expr, polarity)."""
+        if isinstance(e, ast.UnaryOp) and isinstance(e.op, ast.Not):
+            return alternatives(e.operand, not pol, depth)
+        if isinstance(e, ast.BoolOp):
+            conj = isinstance(e.op, ast.And) == pol  # (A and B) true / (A or B) false: all parts constrained
+            parts = [alternatives(v, pol, depth) for v in e.values]
+            if conj:
+                out = [[]]
+                for pa in parts:
+                    out = [x + y for x in out for y in pa][:64]
+                return out
+            return [alt for pa in parts for alt in pa]
+        if isinstance(e, ast.Name) and depth < 3:
+            # a flag computed after the loop (silent = reached or n_iter == 0): look through its single definition
+            defs_ = [n.ast for n in cfg.stmt_nodes() if n.kind == "stmt" and isinstance(n.ast, ast.Assign) and len(n.ast.targets) == 1
+                     and isinstance(n.ast.targets[0], ast.Name) and n.ast.targets[0].id == e.id]
+            if len(defs_) == 1 and not _inside(loop_ast, defs_[0]) and isinstance(defs_[0].value, (ast.BoolOp, ast.UnaryOp, ast.Compare)) \
+                    and e.id != R.reached:
+                return alternatives(defs_[0].value, pol, depth + 1)
+        return [[(e, pol)]]
+
     # ---------------------------------------------------------------- W
     rep.rule("C08.W", "the NumericalWarning test lies on every path from the loop to a return", floor=1)
     warn_tests = []
@@ -396,7 +434,9 @@ def run(idx: ProgramIndex, rep: Report, tier: str, selftest: bool = True):
         if n.kind == "stmt" and any(isinstance(x, ast.Call) and (dotted(x.func) or "").endswith("warn") and "NumericalWarning" in norm(x)
                                     for x in ast.walk(n.ast)):
             for t in controlling_tests(cfg, n.id):
-                if R.reached is not None and R.reached in reads(t.ast):
+                # the test may read the flag directly or through a flag computed from it after the loop
+                lits = [l for alt in alternatives(t.ast, True) for l in alt]
+                if R.reached is not None and any(R.reached in reads(l[0]) for l in lits):
                     warn_tests.append(t)
                     break
     if not warn_tests:
@@ -414,6 +454,69 @@ def run(idx: ProgramIndex, rep: Report, tier: str, selftest: bool = True):
                                      "`not reached` test: an unconverged solve can return silently", cg0.loc(wt.ast)))
         else:
             rep.ok("C08.W", {"warning_test": wt.label[:80], "on_every_path_to_return": True})
+
+    # ---- W2: every path from the end of the iteration to a return that emits NO warning is justified by the
+    # tolerance-reached flag being set or by a zero iteration budget - no other condition may silence the warning
+    bound = None
+    if isinstance(loop_ast, ast.For) and isinstance(loop_ast.iter, ast.Call) and norm(loop_ast.iter.func) == "range" and loop_ast.iter.args \
+            and isinstance(loop_ast.iter.args[-1], ast.Name):
+        bound = loop_ast.iter.args[-1].id
+
+    def justifies(lit: Tuple[ast.AST, bool]) -> bool:
+        e, pol = lit
+        if R.reached is not None and isinstance(e, ast.Name) and e.id == R.reached:
+            return pol is True
+        if bound is not None:
+            if isinstance(e, ast.Name) and e.id == bound:
+                return pol is False  # `if n_iter:` false = no iteration was allowed
+            if isinstance(e, ast.Compare) and len(e.ops) == 1:
+                l_, r_, op = e.left, e.comparators[0], e.ops[0]
+                if isinstance(r_, ast.Name) and r_.id == bound and isinstance(l_, ast.Constant):
+                    l_, r_ = r_, l_
+                    op = {ast.Gt: ast.Lt(), ast.Lt: ast.Gt(), ast.GtE: ast.LtE(), ast.LtE: ast.GtE()}.get(type(op), op)
+                if isinstance(l_, ast.Name) and l_.id == bound and isinstance(r_, ast.Constant) and r_.value in (0, 1):
+                    z = r_.value
+                    zero_when_true = (isinstance(op, ast.Eq) and z == 0) or (isinstance(op, ast.LtE) and z == 0) or (isinstance(op, ast.Lt) and z == 1)
+                    zero_when_false = (isinstance(op, ast.Gt) and z == 0) or (isinstance(op, ast.NotEq) and z == 0) or (isinstance(op, ast.GtE) and z == 1)
+                    return (zero_when_true and pol is True) or (zero_when_false and pol is False)
+        return False
+
+    if warn_tests and R.reached is not None:
+        warn_nodes = {n.id for n in cfg.stmt_nodes() if n.kind == "stmt" and any(
+            isinstance(x, ast.Call) and (dotted(x.func) or "").endswith("warn") and "NumericalWarning" in norm(x) for x in ast.walk(n.ast))}
+        starts = [s for s in cfg.g.successors(loop.id) if cfg.g[loop.id][s].get("pol") is False] + [b.id for b in breaks]
+        h2 = cfg.g.copy()
+        h2.remove_nodes_from([w for w in warn_nodes])
+        silent_paths = 0
+        unjustified = None
+        for s0 in starts:
+            if s0 not in h2 or cfg.exit not in h2:
+                continue
+            for path in list(nx.all_simple_paths(h2, s0, cfg.exit, cutoff=60))[:400] if s0 != cfg.exit else [[s0]]:
+                if any(_inside(loop_ast, cfg.nodes[x].ast) for x in path[1:] if cfg.nodes[x].ast is not None):
+                    continue  # went back into the loop: judged from the exit it finally takes
+                silent_paths += 1
+                ok_ = False
+                conds_txt = []
+                for a_, b_ in zip(path, path[1:]):
+                    nd = cfg.nodes[a_]
+                    pol = cfg.g[a_][b_].get("pol")
+                    if nd.kind != "test" or pol is None:
+                        continue
+                    alts_ = alternatives(nd.ast, pol)
+                    conds_txt.append(("" if pol else "not ") + nd.label[:60])
+                    if alts_ and all(any(justifies(l) for l in alt) for alt in alts_):
+                        ok_ = True
+                if not ok_ and unjustified is None:
+                    unjustified = conds_txt
+        sample = {"silent_paths_from_the_loop_to_a_return": silent_paths, "justified_by": f"{R.reached} set, or {bound} == 0"}
+        if unjustified is None and silent_paths:
+            rep.ok("C08.W", sample)
+        elif unjustified is not None:
+            rep.bad("C08.W", Finding(PROP, "C08.W", F, "silent return not justified by the tolerance-reached flag",
+                                     "linear_cg can return without a NumericalWarning on a path where neither the tolerance was reached "
+                                     f"nor the iteration budget was zero (conditions on the path: {'; '.join(unjustified) or 'none'}): an "
+                                     "unconverged solve is returned silently", cg0.loc(warn_tests[0].ast)), sample)
 
     # ---------------------------------------------------------------- D
     rep.rule("C08.D", "in-loop divisions by iteration quantities are guarded by a clamp of the denominator", floor=3)
